@@ -8,7 +8,7 @@ import ast
 import re
 
 from ..absint import AList, AObj, BV, EnumMember, Interp, SymList, Unknown
-from ..astutil import calls_in, call_name, dotted, norm
+from ..astutil import calls_in, call_name, dotted, norm, try_fold
 from ..cfg import cfg_of
 from ..core import AnalysisError
 from ..tables import bitfields, enum_of, subclasses
@@ -254,6 +254,8 @@ def run(repo, rep):
     rep.run_borrowed(c09, {"C09-c": "C06-k"}, repo)
     rep.clause("C06-o", "the pooling (scale, shift) pair fits the 32 + 6 bits of OFM_SCALE for every window size and scale ratio: the emitter masks a wider value silently [rule shared with C09-h]")
     rep.run_borrowed(c09, {"C09-h": "C06-o"}, repo)
+    rep.clause("C06-p", "the shift that quantise_scale hands to the scale registers fits their 6-bit field: out-of-range shifts degrade to the zero multiplier [rule shared with C09-a]")
+    rep.run_borrowed(c09, {"C09-a": "C06-p"}, repo, only_sites=("quantise_scale",))
     rep.clause("C06-m", "the SHRAM layout emitted for an operation (try_block_config) is derived like the layout the block config was selected with (find_block_config) [rule shared with C15-d]")
     from . import c15
 
@@ -388,6 +390,33 @@ def rule_emitter(repo, rep, gen, cmd0, cmd1):
     def mk_cmd(code_bits=10, dma=None):
         c = AObj("cmd", {"value": BV.sym("code", code_bits), "name": Unknown("cmd.name")})
         return c
+
+    # the register file an elision decision consults holds the values of the *previous* operation: RegisterMachine is modelled exactly
+    # (set r=A; next op; set r=B; next op; set r=A must report a change for the third write)
+    rm_init = gen.func("RegisterMachine.__init__")
+    rm_set = gen.func("RegisterMachine.set_register")
+    rm_sw = gen.func("RegisterMachine.switch_bank")
+    nb = [st for st in rm_init.body if isinstance(st, ast.Assign) and norm(st.targets[0]) == "self.n_banks"]
+    n_banks = try_fold(nb[0].value) if len(nb) == 1 else None
+    forms_ok = (
+        isinstance(n_banks, int) and n_banks >= 1
+        and any(isinstance(st, ast.Assign) and norm(st.targets[0]) == "self.registers" and "range(self.n_banks)" in norm(st.value) for st in rm_init.body)
+        and any(isinstance(st, ast.Assign) and norm(st.targets[0]) == "self.bank_idx" and try_fold(st.value) == 0 for st in rm_init.body)
+        and [norm(st) for st in rm_sw.body] == ["self.bank_idx = (self.bank_idx + 1) % self.n_banks"]
+        and [norm(st) for st in rm_set.body if not isinstance(st, ast.Expr)] == ["is_changed = self.registers[self.bank_idx][reg] != value", "self.registers[self.bank_idx][reg] = value", "return is_changed"]
+    )
+    if not forms_ok:
+        raise AnalysisError("RegisterMachine: the bank structure (n_banks files, set_register on the current file, switch_bank to the next) is not recognised")
+    # the recognised structure as a model: n_banks register files, written round-robin
+    files, idx, seq = [dict() for _ in range(n_banks)], 0, []
+    for v in ("A", "B", "A"):
+        seq.append(files[idx].get("r") != v)
+        files[idx]["r"] = v
+        idx = (idx + 1) % n_banks
+    model_ok = seq == [True, True, True]
+    detail = f"with n_banks = {n_banks}, A, B, A with a switch_bank() after every operation reports changes {seq}"
+    rep.check(model_ok, "C06-e", f"{GEN}:RegisterMachine", "a register written A, B, A by three consecutive operations is emitted three times (the elision test sees the previous operation's value)",
+              detail + ": the third write is compared with the value of the operation before the previous one and dropped while the hardware register still holds B")
 
     # cmd0_with_param
     def mk0():
